@@ -125,7 +125,3 @@ Print Assumptions C18_prefix_on_target_repaired.
 Print Assumptions C18_tuple_comma_repaired.
 Print Assumptions C18_result_comma_repaired.
 Print Assumptions C18_map_key_absolute.
-(*
-Print Assumptions C18_tuple_comma_repaired.
-Print Assumptions C18_result_comma_repaired.
-*)
